@@ -53,6 +53,10 @@ def plan(tier, seed):
             U += u(c, 'highgrade', 1, count=12, cap=3)
         for c in ({'p': 2, 'q': 0, 'r': 1}, {'p': 1, 'q': 0, 'r': 1}, {'p': 1, 'q': 1, 'r': 1}, {'p': 3, 'q': 0, 'r': 0}, {'p': 2, 'q': 0, 'r': 0}):
             U += u(dict(c, opts={'graded': True}), 'gradeblocks', 1, count=30, cap=7)
+        # the symbolic zero filter switched off (simp_func=None): identically vanishing coefficients then reach the code generator as zeros
+        for c in ({'p': 3, 'q': 0, 'r': 0}, {'p': 2, 'q': 0, 'r': 1}, {'p': 2, 'q': 1, 'r': 0}, {'p': 3, 'q': 0, 'r': 1}):
+            U += u(dict(c, opts={'simp_func': 'none'}), 'gradeblocks', 1, count=25, cap=4)
+            U += u(dict(c, opts={'simp_func': 'none'}), 'sparse', 1, count=25, cap=3)
         nshards = 16
     else:
         for c in gen.sig_orderings(1, 1):
@@ -75,6 +79,9 @@ def plan(tier, seed):
             U += u(c, 'sparse', 2, count=25, cap=3 if c['named'] == 'STAP' else 4)
         for c in gen.pqr_all(2, 3):
             U += u(dict(c, opts={'graded': True}), 'gradeblocks', 1, count=80, cap=7)
+        for c in gen.pqr_all(2, 3) + rng.sample(gen.pqr_all(4, 4), 4):
+            U += u(dict(c, opts={'simp_func': 'none'}), 'gradeblocks', 1, count=40, cap=4)
+            U += u(dict(c, opts={'simp_func': 'none'}), 'sparse', 1, count=60, cap=3)
         nshards = 64
     rng.shuffle(U)
     return [{'units': part} for part in gen.split(U, nshards)]
@@ -115,6 +122,8 @@ def run_shard(shard, ctx):
                     ctx.count('cse_false_cases')
                 if cfg.get('opts', {}).get('graded'):
                     ctx.count('graded_mode_cases')
+                if cfg.get('opts', {}).get('simp_func'):
+                    ctx.count('zero_filter_switched_off_cases')
                 ctx.case(cid)
                 if ctx.evaluations % 200 == 1:
                     ctx.sample({'config': name, 'op': op, 'keys_in': [list(k) for k in keysets], 'keys_out': list(r.keys())})
